@@ -33,13 +33,18 @@ impl CliArgs {
 
     pub fn create_interpreter(&self) -> Interpreter {
         let mut interpreter = Interpreter::default();
+        self.configure_interpreter(&mut interpreter);
+        interpreter
+    }
+
+    /// Apply the command-line options (and a fresh random seed) to an
+    /// interpreter, e.g. one that was just created from a source file.
+    pub fn configure_interpreter(&self, interpreter: &mut Interpreter) {
         interpreter.enable_warnings = self.warnings;
         interpreter.enable_tracing = self.tracing;
 
         let now = SystemTime::now();
         let seed = now.elapsed().unwrap().as_millis() as u64;
         interpreter.randomize(seed);
-
-        interpreter
     }
 }
